@@ -166,6 +166,8 @@ theorem annotated_spec (r : T) (sups : List Rat) (h : sups.length = r.splits.len
 def treesOf {α : Type} : List (Item α) → List α
   | [] => []
   | .tree a :: r => a :: treesOf r
+  | .treePlus a :: r => a :: treesOf r
+  | .treeLine as :: r => as ++ treesOf r
   | _ :: r => treesOf r
 
 def noJunk {α : Type} : List (Item α) → Bool
@@ -186,11 +188,26 @@ theorem cliStreamGo_clean {α : Type} : ∀ (items : List (Item α)) (sent : Nat
   | .tree a :: r, sent, hj, _ => by
     simp only [cliStreamGo, treesOf, List.map_cons, Bool.false_eq_true, if_false]
     rw [cliStreamGo_clean r (sent + 1) (by simpa [noJunk] using hj) (by omega)]
+  | .treePlus a :: r, sent, hj, _ => by
+    simp only [cliStreamGo, treesOf, List.map_cons, Bool.false_eq_true, if_false]
+    rw [cliStreamGo_clean r (sent + 1) (by simpa [noJunk] using hj) (by omega)]
+  | .treeLine [] :: r, sent, hj, h => by
+    simp only [cliStreamGo, treesOf, List.nil_append]
+    exact cliStreamGo_clean r sent (by simpa [noJunk] using hj) (by simpa [treesOf] using h)
+  | .treeLine (a :: as) :: r, sent, hj, _ => by
+    simp only [cliStreamGo, treesOf, Bool.false_eq_true, if_false, List.map_append]
+    rw [cliStreamGo_clean r (sent + (a :: as).length) (by simpa [noJunk] using hj)
+      (by simp only [List.length_cons]; omega)]
 
 theorem cliReference_first {α : Type} : ∀ (items : List (Item α)), noJunk items = true →
     cliReference items = (treesOf items).head?
   | [], _ => rfl
   | .tree a :: r, _ => rfl
+  | .treePlus a :: r, _ => rfl
+  | .treeLine (a :: as) :: r, _ => rfl
+  | .treeLine [] :: r, h => by
+    simp only [cliReference, treesOf, List.nil_append]
+    exact cliReference_first r (by simpa [noJunk] using h)
   | .blank :: r, h => by
     simp only [cliReference, treesOf]
     exact cliReference_first r (by simpa [noJunk] using h)
